@@ -988,6 +988,41 @@ func c18Context(c *Ctx) {
 		c.ob("C18-R8", fmtPkg+"#rewriters-do-not-re-encode", token.NoPos, n > 100, "pkg/formatter has fewer than 100 instructions: not loaded")
 	}
 
+	c.rule("C18-R12", "IDEM: `fmt` is idempotent for every byte string only if each of its whole-text steps is: removing one fixed prefix or suffix (strings.TrimPrefix / TrimSuffix / CutPrefix with a constant) is not - the text may begin with the prefix twice, and the second one survives the first pass and is removed by the second (`glyph fmt` followed by `glyph fmt --check` reports the file as unformatted). A whole-text trim in pkg/formatter removes every occurrence (TrimLeft / TrimRight / TrimLeftFunc, or a loop)")
+	{
+		n := 0
+		for _, fn := range c.srcFuncs(fmtPkg) {
+			loops := naturalLoops(fn)
+			k := 0
+			eachInstr(fn, func(b *ssa.BasicBlock, _ int, ins ssa.Instruction) {
+				cl, ok := ins.(*ssa.Call)
+				if !ok {
+					return
+				}
+				switch callName(cl) {
+				case "strings.TrimPrefix", "strings.TrimSuffix", "strings.CutPrefix", "strings.CutSuffix":
+				default:
+					return
+				}
+				if _, isK := constString(cl.Call.Args[1]); !isK || !wholeText(cl.Call.Args[0]) {
+					return
+				}
+				n++
+				inLoop := false
+				for _, lp := range loops {
+					if lp.body[b] {
+						inLoop = true
+					}
+				}
+				k++
+				pat, _ := constString(cl.Call.Args[1])
+				c.ob("C18-R12", fnKey(fn)+"#whole-text-trim-is-idempotent-"+itoa(k), cl.Pos(), inLoop, short(callName(cl))+" removes "+strconv.Quote(pat)+" from the program text once: a text that carries it twice keeps one after the first pass and loses it in the second - formatting is not idempotent (two byte order marks; a mark that only reaches the start of the text once the leading blank lines are gone is the same defect one step later)")
+			})
+		}
+		c.Sites["C18-R12#whole-text-trims"] = n
+		c.ob("C18-R12", fmtPkg+"#whole-text-trims-examined", token.NoPos, true, "")
+	}
+
 	// ---- R9 what expansion rewrites at the start of a line, compaction rewrites back at the start of a line
 	c.rule("C18-R9", "SIB: expansion replaces a symbol wherever nothing but white space precedes it on its line, at any nesting depth; so the two context predicates of the formatter (the one for symbols and the one for keywords) answer true whenever the text before the token on its line is empty - no further condition (nesting depth, previous token) narrows the line-start case in either direction. Otherwise a symbol expanded inside a block (`:key = value`, a `!a` list element on its own line) is not compacted back and expand -> compact no longer parses")
 	{
